@@ -7,6 +7,7 @@ from rules import agent as A
 from rules import agent_e2 as AE
 from e1 import field_accesses
 
+THOROUGH_CONFIGS = ("release", "arbitrary")
 LEVEL = "other"
 
 UDP_DEFAULT = [500, 1000, 2000, 4000, 8000, 16000]
